@@ -60,6 +60,13 @@ Definition cast_kind (k : akind) (v : inval) : result aval :=
   | KBool, IStr s => Ok (ABool (negb (String.eqb s "")))
   | KBool, IBool b => Ok (ABool b)
   | KList, _ => Err EOther   (* list(...) is never the function applied: see [set_value] *)
+  | KOther ty dflt tbl, IStr s =>
+      match cast_other dflt tbl s with
+      | COk r => Ok (AStr (other_repr ty r))
+      | CFailV => Err EValue
+      | CFailT => Err EType
+      end
+  | KOther _ _ _, IBool _ => Err EOther   (* kind(True) with cast: never happens for value-taking arguments *)
   end.
 
 Definition aval_of_inval (v : inval) : aval :=
